@@ -12,7 +12,7 @@ from .numfmt import SEP_CONFIGS, canon_of_float, render_literal
 SPEC = {
     'rule': ('one pool of source lines per kind (numbers and percentages from rounding-boundary families, money in every currency whose printed '
              'symbol is itself a reader key, durations with all components, times with zone, dates in both year forms, quantities of all '
-             'configured units, integers in the three bases) x 4 separator conventions x decimal digits {0, 2, 4} x {en, tr}; the printed '
+             'configured units, integers in the three bases; negative money, percentages and quantities as results of a subtraction) x 4 separator conventions x decimal digits {0, 2, 4} x {en, tr}; the printed '
              'form O1 of each result is fed back as a new line under the same configuration and language and must print as O1 again with '
              'the same kind. non-trivial = a round trip of a non-empty print; distinct = distinct (configuration, language, kind, O1)'),
     'min_nontrivial': 2000,
